@@ -470,13 +470,14 @@ def rust_build(t, val):
             if len(val) > 3 and val[3] == "borrowed":
                 return "Cow::Borrowed(Box::leak(Box::new(%s)))" % inner
             return "Cow::Owned(%s)" % inner
+        ity = rust_type(t["t"])      # explicit types: method calls on the fresh wrapper need them (Cow inside Rc)
         if g == "RefCell":
-            return "{ let c = RefCell::new(%s); %sc }" % (inner, "std::mem::forget(c.borrow_mut()); " if st == 2 else "")
+            return "{ let c: RefCell<%s> = RefCell::new(%s); %sc }" % (ity, inner, "std::mem::forget(c.borrow_mut()); " if st == 2 else "")
         if g in ("Rc", "Arc"):
-            return "{ let r = %s::new(%s); %sr }" % (g, inner, "keep.push(Box::new(r.clone())); " if st == 2 else "")
+            return "{ let r: %s<%s> = %s::new(%s); %sr }" % (g, ity, g, inner, "keep.push(Box::new(r.clone())); " if st == 2 else "")
         if g in ("Mutex", "RwLock"):
             lock = "lock" if g == "Mutex" else "write"
-            return ("{ let m = %s::new(%s); %sm }" % (g, inner, (
+            return ("{ let m: %s<%s> = %s::new(%s); %sm }" % (g, ity, g, inner, (
                 "let _ = std::panic::catch_unwind(std::panic::AssertUnwindSafe(|| { let _g = m.%s().unwrap(); panic!(\"poison\") })); " % lock) if st == 2 else ""))
     if k == "arr":
         return "[%s]" % ", ".join(rust_build(t["t"], v) for v in val[1])
